@@ -15,6 +15,10 @@ import (
 	"strconv"
 	"time"
 
+	"github.com/go-logr/logr"
+	v1 "k8s.io/api/core/v1"
+	ctrllog "sigs.k8s.io/controller-runtime/pkg/log"
+
 	"verif/mc/engine"
 	"verif/mc/maporder"
 	"verif/mc/registry"
@@ -41,6 +45,7 @@ func envInt(name string, def int) int {
 }
 
 func run(tier string) int {
+	ctrllog.SetLogger(logr.Discard()) // the controller logs through controller-runtime's global logger
 	scns := scenarios(tier)
 	// heaviest scenarios first, so the shards are balanced
 	order := make([]int, len(scns))
@@ -110,7 +115,9 @@ func run(tier string) int {
 	}
 	sort.Slice(all, func(i, j int) bool { return all[i].Scenario < all[j].Scenario })
 
-	bd := tierBounds(tier)
+	bd := tierBounds(tier, scns[0])
+	bdMulti := tierBounds(tier, &scenario{Part: []int{0, 1}})
+	bdMulti4 := tierBounds(tier, &scenario{Part: []int{0, 1, 2, 3}, Pods: make([]*v1.Pod, 4)})
 	agg := struct {
 		states, transitions, reconciles, foreign, writeFree, mustFree, afterForeign, perms, subsets, maxDepth, closed, capHits, det, mapOrder, finals int
 	}{}
@@ -209,6 +216,10 @@ func run(tier string) int {
 		"replica_subsets_explored":                   agg.subsets,
 		"max_history_depth":                          agg.maxDepth,
 		"history_depth_bound":                        bd.depth,
+		"history_depth_bound_multi_group_4pods":      bdMulti4.depth,
+		"history_depth_bound_multi_group":            bdMulti.depth,
+		"max_states_per_scenario":                    bd.maxStates,
+		"foreign_target_groups_max":                  bd.maxTargets,
 		"scenarios_closed_before_depth_bound":        agg.closed,
 		"reconciles_executed":                        agg.reconciles,
 		"foreign_updates_executed":                   agg.foreign,
